@@ -911,7 +911,18 @@ class Translator:
                 pre = self.stmt(inner[0])
                 idx = 1
             if n.get('hasVar'):
-                raise Unsupported('if with condition variable')
+                # `if (T v = init) ...`: the variable lives for the whole statement: a block with the declaration, then the test of the variable
+                if inner[idx].get('kind') != 'DeclStmt':
+                    raise Unsupported('if with condition variable (unexpected shape)')
+                self.locals.append({})
+                decl = self.stmt(inner[idx])
+                cond = self.cond(inner[idx + 1])
+                then = self.stmt_block(inner[idx + 2])
+                out = '{ ' + pre + decl + 'if (%s) %s' % (cond, then)
+                if n.get('hasElse'):
+                    out += 'else ' + self.stmt_block(inner[idx + 3])
+                self.locals.pop()
+                return out + '}\n'
             cond = self.cond(inner[idx])
             then = self.stmt_block(inner[idx + 1])
             out = pre + 'if (%s) %s' % (cond, then)
